@@ -3,7 +3,7 @@ import BoxoModel.Lib.AMap
 C36 — bitswap server decision engine: executable model.
 
 Transcribed from /repo/bitswap/server/internal/decision/{engine.go, peer_ledger.go, taskmerger.go}
-(with the four `fix:` commits of branch verif/bsserver) and, for the request queue, from the parts of
+(with the four `fix:` commits of branch verif/bsserver and the two of verif/bsserver2) and, for the request queue, from the parts of
 go-peertaskqueue v0.8.3 the engine relies on (peertracker.PushTasksTruncated / PopTasks / TaskDone /
 Remove, peertaskqueue.Clear), branch for branch:
 
@@ -238,9 +238,9 @@ def State.has (s : State) (c : Cid) : Bool := s.store.contains c
 /-- peerRequestQueue.Remove(c, p) -/
 def State.qRemove (s : State) (p : Peer) (c : Cid) : State := s.setPq p ((s.pq p).remove c)
 
-/-- blockstoreManager.getBlockSizes: a block of length 0 is reported as not found (`if n != 0`) -/
+/-- blockstoreManager.getBlockSizes (sizes start at -1 = not found; a stored block may have length 0) -/
 def getBlockSize (cfg : Cfg) (s : State) (c : Cid) : Option Nat :=
-  if s.has c ∧ cfg.size c ≠ 0 then some (cfg.size c) else none
+  if s.has c then some (cfg.size c) else none
 
 /-- Engine.sendAsBlock -/
 def sendAsBlock (cfg : Cfg) (wt : WT) (blockSize : Nat) : Bool := wt = .block || blockSize ≤ cfg.replace
@@ -355,7 +355,7 @@ def wantTask (cfg : Cfg) (bs : Cid → Option Nat) (et : MEntry) : List Task :=
   match bs et.cid with
   | none => dontHaveTask cfg et
   | some blockSize =>
-    let isWantBlock := blockSize ≠ 0 && sendAsBlock cfg et.wt blockSize
+    let isWantBlock := !(cfg.replace = 0 && et.wt = .have) && sendAsBlock cfg et.wt blockSize
     let entrySize := if isWantBlock then blockSize else cfg.pres et.cid
     [{ topic := et.cid, prio := et.prio, work := entrySize,
        d := { blockSize := blockSize, haveBlock := true, isWantBlock := isWantBlock, sendDontHave := et.sdh } }]
@@ -425,7 +425,9 @@ def popOnce (cfg : Cfg) (s : State) (p : Peer) (sel : List Cid) : State × Optio
   else
     let env : Env := { id := s.nextId, peer := p, blocks := blocks, haves := haves, dontHaves := dh0 ++ dh1,
                        pendingBytes := pendingWork pend }
-    let q' : PQ := { pending := pend, active := q.active ++ tasks.map fun t => (s.nextId, t) }
+    -- a block task whose block vanished is completed at once (TasksDone inside the loop over blockTasks)
+    let stay := tasks.filter fun t => !(t.d.haveBlock && t.d.isWantBlock && !s.has t.topic)
+    let q' : PQ := { pending := pend, active := q.active ++ stay.map fun t => (s.nextId, t) }
     ({ (s.setPq p q') with outst := s.outst ++ [env], nextId := s.nextId + 1 }, some env)
 
 /-- Engine.MessageSent -/
